@@ -125,6 +125,18 @@ def run(ctx):
                 lits = [A.string_literal(k) for k in A.kids(il)]
                 if lits and all(l is not None for l in lits):
                     arrays.append((x, lits))
+    if not arrays:
+        # the table may stand outside the function (a file-level constant): the array a range-for of scan_deps iterates over
+        for rf in A.walk(u.body(fn)):
+            if rf.get("kind") != "CXXForRangeStmt":
+                continue
+            for y in A.walk(rf):
+                if y.get("kind") == "DeclRefExpr" and (y.get("referencedDecl") or {}).get("kind") == "VarDecl":
+                    d_ = u.by_id.get(y["referencedDecl"]["id"])
+                    if d_ is not None and "char" in A.stype(d_) and "[" in A.stype(d_) and A.kids(d_) and A.strip_casts(A.kids(d_)[-1]).get("kind") == "InitListExpr":
+                        lits = [A.string_literal(k) for k in A.kids(A.strip_casts(A.kids(d_)[-1]))]
+                        if lits and all(l is not None for l in lits) and not any(a_[0] is d_ for a_ in arrays):
+                            arrays.append((d_, lits))
     ctx.require(len(arrays) == 1, "scan_deps: expected one array of key literals, found %d" % len(arrays))
     arr, lits = arrays[0]
     # the lookup key is the loop variable of a range-for over that array
